@@ -1,8 +1,7 @@
 (* C15  Equivalent formulations of an LP receive equivalent answers.
    For each reformulation: an lp_equiv (maps between feasible sets + sign-aware affine map on
    values); from an lp_equiv: optimum <-> optimum with related values, infeasible <-> infeasible,
-   unbounded <-> unbounded; lp_equiv is closed under composition.  Column permutation is not
-   covered by a theorem (see not_covered in the evidence). *)
+   unbounded <-> unbounded; lp_equiv is closed under composition. *)
 From QSX Require Import LP.TransformSound.
 Local Open Scope Q_scope.
 
@@ -68,3 +67,8 @@ Print Assumptions C15_redundant_row.
 Theorem C15_equality_split : forall M U i, lp_equiv M U (split_eq i U) (fun x => x) (fun x => x) false 0.
 Proof. exact split_eq_equiv. Qed.
 Print Assumptions C15_equality_split.
+
+Theorem C15_column_permutation : forall M p U U', perm_cols p U = Some U' ->
+  lp_equiv M U U' (pc_phi p) (pc_psi p) false 0.
+Proof. exact perm_cols_equiv. Qed.
+Print Assumptions C15_column_permutation.
